@@ -128,7 +128,7 @@ def check_threads(seed, n_cases=6):
     # (d) a SECOND BUILD is started (and has to wait for the build lock) while the first build is paused inside its
     #     describing function: both DAGs must come out as if built one after the other
     cases += 1
-    inside2, release2 = threading.Event(), threading.Event()
+    inside2, release2, again2 = threading.Event(), threading.Event(), threading.Event()
     built2, errs2 = {}, {}
 
     def builder_a():
@@ -143,6 +143,18 @@ def check_threads(seed, n_cases=6):
             built2["a"] = dag(first)
         except BaseException as e:  # noqa: BLE001
             errs2["a"] = f"{type(e).__name__}: {str(e)[:80]}"
+        # ... and LATER, with nothing else going on, the same thread builds another DAG: the overlapped builds must not
+        # have left anything behind (a stale describing marker, somebody's tables as the module globals)
+        again2.wait(8)
+
+        def third(z):
+            return both(inc(z), z)
+
+        third.__qualname__ = third.__name__ = "third"
+        try:
+            built2["a_later"] = dag(third)
+        except BaseException as e:  # noqa: BLE001
+            errs2["a_later"] = f"{type(e).__name__}: {str(e)[:80]}"
 
     def builder_b():
         def second(y):
@@ -161,11 +173,21 @@ def check_threads(seed, n_cases=6):
         tb2.start()
         time.sleep(0.3)  # B reaches the build lock (held by A) and waits there
         release2.set()
-        ta2.join(8)
         tb2.join(8)
+        time.sleep(0.1)
+        from tawazi.node import node as _node_mod
+
+        idle = (getattr(_node_mod, "describing_thread", None), len(_node_mod.exec_nodes), len(_node_mod.results), list(_node_mod.DAG_PREFIX), _node_mod.exec_nodes_lock.locked())
+        again2.set()
+        ta2.join(8)
         v = []
         if errs2:
             v.append(f"overlapping builds raised {errs2}")
+        if "a" in built2 and "b" in built2 and idle != (None, 0, 0, [], False):
+            v.append(f"after two overlapping builds the idle library holds (describing marker, #nodes, #results, prefix, locked) = {idle}")
+        dl = built2.get("a_later")
+        if dl is not None and (sorted(dl.exec_nodes) != sorted(["third>!>z", inc.id, both.id]) or dl(5) != ("both", ("inc", 5), 5)):
+            v.append(f"the DAG built later by the thread whose build had been overlapped contains {sorted(dl.exec_nodes)} / computes {dl(5)!r}")
         da, db = built2.get("a"), built2.get("b")
         if da is not None and (sorted(da.exec_nodes) != sorted(["first>!>x", inc.id, both.id]) or da(3) != ("both", ("inc", 3), 3)):
             v.append(f"the DAG whose build was overlapped by another build contains {sorted(da.exec_nodes)} / computes {da(3)!r}")
